@@ -542,7 +542,7 @@ func c01FlamePhase(r *core.Run, cat []catRoute, paths []string) {
 // of this order and of its reverse, so every route is once the first and once the last of its siblings.
 var c01WideTexts = []string{"/a", "/b", "/c", "/ab", "/a-b", "/a+b", "/{p1}", "/{r1: /[abc]+/}", "/{r1b: /a.*/}", "/{m1: **}",
 	"/a/a", "/a/b", "/a/c", "/a/ab", "/a/{p2}", "/a/{r2: /[ab]+/}", "/a/{r2b: /b|c/}", "/a/{m2: **}", "/a/{n2: **, capture: 1}/c",
-	"/{q1}/b", "/{q1b}/c", "/{s1: /a+/}/b", "/{k1: **}/c", "/{k1b: **, capture: 2}/b/c",
+	"/{q1}/b", "/{q1b}/c", "/{s1: /a+/}/b", "/{k1: **}/c", "/{k1: **}/b/{p3w}", "/{k1b: **, capture: 2}/b/c",
 	"/a/b/c", "/a/b/a", "/a/b/{p3}", "/a/b/{r3: /c+/}", "/a/{p2c}/c", "/a/{r2c: /[ab]+/}/c", "/b/?c", "/c/?{o2}", "/a/a/?b", "/b/{m2w: **}/c/?{o4w}"}
 
 func c01Wide(r *core.Run, p *route.Parser, paths []string) {
@@ -694,7 +694,7 @@ func c01Run(r *core.Run) {
 		"Go regexp is trusted (used independently per expression by the reference)",
 		"registration verdict differences are C08's finding; such configurations are skipped here and counted",
 	}
-	r.Rule = "engine E: every ordered tuple of distinct catalogue routes registered on a fresh route.Tree (and Flame for the method dimension) x every path; every tuple also with the whole path set served between its registrations (same final answers required); one table of 33 routes in 66 registration orders; six route shapes with each of the 16 punctuation characters of literal text next to binds x every concatenation of <=4 tokens as path segment; oracle = declarative admission (found iff some form admits) AND the documented priority procedure over a reference trie (winner equality); non-trivial = (set,path) admitted by >=2 registered forms or won after back-tracking out of a higher-ranked branch"
+	r.Rule = "engine E: every ordered tuple of distinct catalogue routes registered on a fresh route.Tree (and Flame for the method dimension) x every path; every tuple also with the whole path set served between its registrations (same final answers required); one table of 34 routes in 68 registration orders; six route shapes with each of the 16 punctuation characters of literal text next to binds x every concatenation of <=4 tokens as path segment; oracle = declarative admission (found iff some form admits) AND the documented priority procedure over a reference trie (winner equality); non-trivial = (set,path) admitted by >=2 registered forms or won after back-tracking out of a higher-ranked branch"
 	var maxSegs, pathSegs, pairPathSegs int
 	if r.Thorough() {
 		r.SetBudget(20 * time.Minute)
